@@ -127,6 +127,18 @@ Record copy_row := {
   cr_clear : kind       (* copier_clear(&copy_<X>) *)
 }.
 
+(* one "if (save.X == TRUE) { n = save.n_F_user; xG_save(n); <copies on Rxn_M_map from A to save.n_B_user_end> }"
+   block of saver() *)
+Record save_row := {
+  sv_flag : kind;       (* save.<X> == TRUE *)
+  sv_n : kind;          (* n = save.n_<X>_user *)
+  sv_fn : kind;         (* x<X>_save(n): writes the result into Rxn_<X>_map[n] *)
+  sv_map : kind;        (* Rxn_copy / Rxn_copies on Rxn_<X>_map *)
+  sv_from : kind;       (* copies start after save.n_<X>_user (or after n: then equal to sv_n) *)
+  sv_end : kind;        (* ... and run to save.n_<X>_user_end *)
+  sv_loop : bool        (* true: for (i = from + 1; i <= end; i++) Rxn_copy(map, n, i); false: Rxn_copies(map, from, end) *)
+}.
+
 Record gen_tables := {
   g_copy_shape : copy_shape;               (* Phreeqc.h: Utilities::Rxn_copy *)
   g_copies_shape : copies_shape;           (* Phreeqc.h: Utilities::Rxn_copies *)
@@ -136,7 +148,9 @@ Record gen_tables := {
   g_copy_resets : bool;                    (* ... which ends with new_copy = FALSE *)
   g_copy_kw : list (kind * list kind);     (* read.cpp: read_copy, keyword -> copiers *)
   g_copy_cell : list kind;                 (* read.cpp: read_copy, "cell" -> copiers *)
-  g_components : list kind                 (* Phreeqc.cpp: list_components, maps iterated *)
+  g_components : list kind;                (* Phreeqc.cpp: list_components, maps iterated *)
+  g_saver : list save_row;                 (* mainsubs.cpp: saver, one row per block (kinetics apart) *)
+  g_mixes : list (kind * kind)             (* mainsubs.cpp: do_mixes, Rxn_mix(Rxn_<X>_mix_map, Rxn_<Y>_map) *)
 }.
 
 (** ** Entities, stores *)
@@ -422,6 +436,44 @@ Section Model.
   (* premises under which [run_cell] is faithful: no KINETICS n (its saving goes through entry -2) *)
   Definition cell_ok (st : store) (n : Z) : bool := negb (present st KKin n).
 
+  (** *** SAVE: the "save" structure and saver() *)
+  Record save_item := mkSave { sa_flag : bool; sa_n : Z; sa_end : Z }.
+  Definition save_struct := kind -> save_item.
+  Definition save0 : save_struct := fun _ => mkSave false 0 0.
+
+  (* read_save: each SAVE line overwrites the fields of its kind (the last line of a kind wins) *)
+  Definition save_struct_of (sv : save_req) : save_struct :=
+    fold_left (fun S s k => if kind_eqb k (fst (fst s)) then mkSave true (snd (fst s)) (snd s) else S k) sv save0.
+
+  (* hand transcription of saver(): for each savable kind whose flag is set, entity n := result (only when
+     the kind took part in the calculation: x*_save return at once otherwise); then copies n+1..n_end of
+     whatever entity n now is -- also for a kind that was not used, in which case an already existing
+     entity n is duplicated over the range *)
+  Definition saver_map (used : bool) (c : C) (it : save_item) (m : emap) : emap :=
+    if sa_flag it then
+      rxn_copies (if used then zins (sa_n it) (mkEnt (sa_n it) c) m else m) (sa_n it) (sa_end it)
+    else m.
+
+  Definition saver (u : use_req) (res : kind -> C) (S : save_struct) (st : store) : store :=
+    fun k => if mem_kind k savable_kinds then saver_map (used_kind u k) (res k) (S k) (st k) else st k.
+
+  (* the same, interpreted from the regenerated rows *)
+  Definition saver_row_g (cp : emap -> Z -> Z -> emap) (cps : emap -> Z -> Z -> emap)
+             (u : use_req) (res : kind -> C) (S : save_struct) (st : store) (r : save_row) : store :=
+    if sa_flag (S (sv_flag r)) then
+      let n := sa_n (S (sv_n r)) in
+      let st1 := if used_kind u (sv_fn r) then supd st (sv_fn r) (zins n (mkEnt n (res (sv_fn r))) (st (sv_fn r))) else st in
+      let from := sa_n (S (sv_from r)) in
+      let e := sa_end (S (sv_end r)) in
+      if sv_loop r
+      then supd st1 (sv_map r) (fold_left (fun m i => cp m n i) (zrange (from + 1) e) (st1 (sv_map r)))
+      else supd st1 (sv_map r) (cps (st1 (sv_map r)) from e)
+    else st.
+
+  Definition saver_g (cp cps : emap -> Z -> Z -> emap) (tbl : list save_row)
+             (u : use_req) (res : kind -> C) (S : save_struct) (st : store) : store :=
+    fold_left (saver_row_g cp cps u res S) tbl st.
+
   (** *** SOLUTION_MIX etc.: do_mixes / Rxn_mix *)
   Variable M : Type.                        (* a mixing recipe *)
   Variable mix_nums : M -> list Z.
@@ -448,6 +500,7 @@ Section Model.
      hand transcriptions and with the interpretations of the regenerated tables *)
   Record prims := {
     p_copies : emap -> Z -> Z -> emap;                    (* Utilities::Rxn_copies *)
+    p_saver : use_req -> (kind -> C) -> save_struct -> store -> store;   (* saver *)
     p_copy_ents : list copy_opt -> store -> store;        (* read_copy ; copy_entities *)
     p_delete_ents : list del_opt -> store -> store        (* read_delete ; delete_entities *)
   }.
@@ -465,20 +518,10 @@ Section Model.
           end
       end.
 
-    (* saver(): entity n := result (only when the kind took part in the calculation: x*_save return
-       at once otherwise); then copies n+1..n_end of whatever entity n now is -- also for a kind that
-       was not used, in which case an already existing entity n is duplicated over the range *)
-    Definition save1 (u : use_req) (res : kind -> C) (st : store) (s : kind * Z * Z) : store :=
-      let k := fst (fst s) in
-      if mem_kind k savable_kinds then
-        let m1 := if used_kind u k then zins (snd (fst s)) (mkEnt (snd (fst s)) (res k)) (st k) else st k in
-        supd st k (p_copies P m1 (snd (fst s)) (snd s))
-      else st.
-
     (* run_reactions + saver, as used by run_as_cells (no set_use() test there) *)
     Definition do_react_core (tag cell : Z) (u : use_req) (sv : save_req) (st : store) : option store :=
       if use_missing u (look_of st) then None        (* "Solution n not found." : run stops *)
-      else Some (fold_left (save1 u (react tag cell (used_of u (look_of st)))) sv st).
+      else Some (p_saver P u (react tag cell (used_of u (look_of st))) (save_struct_of sv) st).
 
     (* reactions(): USE ... SAVE ... of a simulation *)
     Definition do_react (tag : Z) (u : use_req) (sv : save_req) (st : store) : option store :=
@@ -528,11 +571,13 @@ Section Model.
 
   Definition hand_prims : prims :=
     {| p_copies := rxn_copies;
+       p_saver := saver;
        p_copy_ents := fun opts => copy_entities (read_copy opts);
        p_delete_ents := fun opts => delete_entities (read_delete opts) |}.
 
   Definition gen_prims (T : gen_tables) : prims :=
     {| p_copies := rxn_copies_g (g_copies_shape T);
+       p_saver := saver_g (rxn_copy_g (g_copy_shape T)) (rxn_copies_g (g_copies_shape T)) (g_saver T);
        p_copy_ents := fun opts => copy_entities_g (rxn_copy_g (g_copy_shape T)) (g_copy T)
                                                   (read_copy_g (g_copy_kw T) (g_copy_cell T) opts);
        p_delete_ents := fun opts => delete_entities_g (g_delete T) (read_delete opts) |}.
